@@ -160,6 +160,9 @@ def run_type(pane, res, tsi, bri, kind, li, tier):
         data.append(('adj_missing_c', tagset[0], b0, {'t': tagset[0]}))
         data.append(('adj_extra_key', tagset[0], b0, {'t': tagset[0], 'c': b0, 'more': 1}))
         data.append(('adj_wrong_keys', ABSENT, b0, {'T': tagset[0], 'C': b0}))
+        data.append(('adj_wrong_keys', ABSENT, b0, {'t': tagset[0], 'C': b0}))       # two keys, only one of them right
+        data.append(('adj_wrong_keys', ABSENT, b0, {'T': tagset[0], 'c': b0}))
+        data.append(('adj_wrong_keys', ABSENT, b0, {'t': tagset[0], 1: None}))
     if lname == 'internal':
         data.append(('int_tag_only', tagset[0], {}, {'x': tagset[0]}))
     for v in values.POOL:
@@ -515,12 +518,41 @@ def run_builder(pane, res):
                                f"duplicate tag values {tags} ({layout[0]} layout) were accepted when the type was built", cell, 1)
 
 
+def run_builder_subclasses(pane, res):
+    """Duplicate tag values are refused also when the second variant is a SUBCLASS of the first and merely inherits its tag
+    (in either order): the tag alone could not tell them apart."""
+    from pane.annotations import Tagged
+    from pane.convert import make_converter
+    for li, layout in enumerate(LAYOUTS):
+        Base = grammar.pin(type('BBase', (pane.PaneBase,), {'__annotations__': {'x': t.Literal['a'], 'y': int}, 'x': 'a', 'y': 1, '__module__': 'mc.generated'}))
+        Sub = grammar.pin(type('BSub', (Base,), {'__annotations__': {'z': int}, 'z': 2, '__module__': 'mc.generated'}))
+        Other = grammar.pin(type('BOther', (pane.PaneBase,), {'__annotations__': {'x': t.Literal['b']}, 'x': 'b', '__module__': 'mc.generated'}))
+        for order, vs in (('base, subclass', (Base, Sub, Other)), ('subclass, base', (Sub, Base, Other)), ('other between', (Base, Other, Sub))):
+            res['states'] += 1
+            res['evals'] += 1
+            res['validated'] += 1
+            res['nontrivial'].add(f"dup_subclass|{order}|{layout[0]}")
+            cell = {'builder': True, 'tags': f"subclass:{order}", 'layout': li}
+            try:
+                make_converter(t.Annotated[t.Union[vs], Tagged('x', external=layout[1])])
+            except TypeError:
+                res['outcomes']['duplicate_refused'] += 1
+                continue
+            except Exception as e:  # noqa
+                core.add_violation(res, {'kind': 'duplicate_tags_wrong_exception', 'exc': type(e).__name__},
+                                   f"a variant and its subclass with the inherited tag ({order}, {layout[0]}): make_converter raised {type(e).__name__}", cell, 1)
+                continue
+            core.add_violation(res, {'kind': 'duplicate_tags_accepted', 'layout': layout[0]},
+                               f"a variant and its subclass sharing the inherited tag value 'a' ({order}; {layout[0]} layout) were accepted when the type was built", cell, 1)
+
+
 def run_shard(shard, tier):
     pane = core.import_pane()
     warnings.simplefilter('ignore')
     res = core.new_result()
     if shard.get('builder'):
         run_builder(pane, res)
+        run_builder_subclasses(pane, res)
         return res
     for kind in KINDS:
         for li in range(len(LAYOUTS)):
@@ -541,6 +573,7 @@ def replay(cell):
     res = core.new_result()
     if cell.get('builder'):
         run_builder(pane, res)
+        run_builder_subclasses(pane, res)
         return [v for lst in res['violations'].values() for v in lst if v['cell'].get('tags') == cell.get('tags')]
     run_type(pane, res, cell['ts'], cell['br'], cell['kind'], cell['layout'], 'quick')
     out = [v for lst in res['violations'].values() for v in lst]
